@@ -1,7 +1,7 @@
 """C05 — parallel tempering keeps every replica at its own thermal distribution (partial by nature:
 invariance is proved, ergodicity is not a theorem)."""
 from checks import pure_fns
-LEAN_TARGETS = ["QmcProps.C05", "drv_c05", "QmcProps.C02", "drv_c02"]
+LEAN_TARGETS = ["QmcProps.C05", "drv_c05", "QmcProps.C02", "drv_c02", "drv_c04"]
 BINS = ["c05", "c02"]
 
 # C05's per-replica statement rests on the single-replica kernels. The ladders here contain heat-bath replicas (Ising and
@@ -49,6 +49,11 @@ def main(ck):
         ck.correspond("grow", "drv_c05", cases)
         cases = ck.harness("c05", ["gmixed"])
         ck.correspond("gmixed", "drv_c05", cases)
+        # generic replicas with loop updates (XXZ ring with Ising anisotropy, cold betas): every loop update of long chains is
+        # checked for closed world lines; loops with very many vertex visits are replayed exactly by the Lean loop model
+        # (protocol and driver of C04); a beta ladder is checked for closed world lines / legal strings after every round
+        ck.correspond("long-directed-loops", "drv_c04", ck.harness("c05", ["loops"]))
+        ck.correspond("xxz-ladder-consistent-every-round", "drv_c05", ck.harness("c05", ["xxz"]))
         # the heat-bath diagonal update of the replicas (same harness modes as C02): stored tables stay valid under swaps,
         # sweeps replayed exactly, every slot's insert / accept / remove probability bisected (Ising and generic samplers,
         # generic diagonal bonds with several different non-zero weights)
